@@ -1,7 +1,7 @@
 (* ApiV2/Catalogue.v — schema and completeness predicate for the command catalogue that the Go driver
    observes by reflection on every run (translation + finite check: the generated file
    build/apiv2/Gen_Catalogue.v instantiates [fields]/[cmds] and proves [catalogue_ok] by vm_compute). *)
-From Coq Require Import List NArith Bool String.
+From Coq Require Import List NArith Bool.
 Import ListNotations.
 Open Scope N_scope.
 
@@ -14,16 +14,8 @@ Inductive fobs := OPrefixed | OEndKey | OStripped | OUnchanged | OOther.
    2 = reverse scan with empty start (only for requests with a Reverse flag) *)
 Record frow := mkf {
   f_cmd : N; f_side : side; f_class : fclass; f_variant : N; f_obs : fobs;
-  f_foreign_rejected : bool;   (* response key fields: a key of another keyspace there makes DecodeResponse fail (true when n/a) *)
-  f_fc : string                (* "catalogue_gap:<Cmd>:<side>:<field path>", the class a gap at this row is reported under *)
+  f_foreign_rejected : bool    (* response key fields: a key of another keyspace there makes DecodeResponse fail (true when n/a) *)
 }.
-
-(* known gaps = the finding_class strings listed (status known) for C15 in known_findings.json; a row is a
-   known gap when one of them occurs in the row's class string (the matching rule of the verdict protocol) *)
-Fixpoint is_substr (k s : string) : bool :=
-  if String.prefix k s then true else
-  match s with EmptyString => false | String _ s' => is_substr k s' end.
-Definition known_gap (known : list string) (fc : string) : bool := existsb (fun k => is_substr k fc) known.
 
 Definition fobs_eqb (a b : fobs) : bool :=
   match a, b with
@@ -40,14 +32,12 @@ Definition expected (f : frow) : fobs :=
   | Resp, _ => OStripped
   end.
 
-Definition field_complete (f : frow) : bool := fobs_eqb (f_obs f) (expected f) && f_foreign_rejected f.
-Definition field_ok (known : list string) (f : frow) : bool :=
-  if field_complete f then true else known_gap known (f_fc f).
+(* no exemptions: since the repairs F17.1 - F17.12 every row has to be complete *)
+Definition field_ok (f : frow) : bool := fobs_eqb (f_obs f) (expected f) && f_foreign_rejected f.
 
 Record xrow := mkx {
   x_cmd : N;
-  x_name : string;       (* the command's label in class strings *)
-  x_enc_ok : bool;       (* EncodeRequest succeeded, returned a copy, left the caller's message untouched, set api version + keyspace id *)
+  x_enc_ok : bool;       (* EncodeRequest succeeded, returned a copy, left the caller's message untouched, set api version + keyspace id; DecodeResponse accepts an in-keyspace response *)
   x_has_ctx : bool;      (* the request message has a Context field *)
   x_attach : bool;       (* AttachContext returned true *)
   x_ctx_set : bool;      (* ... and the message now carries the context; a second attach does not write into the first message *)
@@ -60,48 +50,37 @@ Record xrow := mkx {
 }.
 
 Definition impb (a b : bool) : bool := negb a || b.
-Definition gap_class (x : xrow) (what : string) : string := ("catalogue_gap:" ++ x_name x ++ ":" ++ what)%string.
-(* [c] holds, or the gap is a listed one *)
-Definition or_known (known : list string) (x : xrow) (what : string) (c : bool) : bool :=
-  if c then true else known_gap known (gap_class x what).
 
-Definition cmd_ok (known : list string) (x : xrow) : bool :=
-  or_known known x "encode_request" (x_enc_ok x)
-  && impb (x_has_ctx x) (or_known known x "attach_context" (x_attach x && x_ctx_set x))
-  && impb (x_resp_rerr x) (or_known known x "gen_region_error" (x_genre x && x_readback x))
-  && impb (x_resp_rerr x) (or_known known x "resp:RegionError" (x_clip x))
-  && impb (x_batch x) (or_known known x "batch_conversion" (x_batch_rt x)).
+Definition cmd_ok (x : xrow) : bool :=
+  x_enc_ok x
+  && impb (x_has_ctx x) (x_attach x && x_ctx_set x)
+  && impb (x_resp_rerr x) (x_genre x && x_readback x)
+  && impb (x_resp_rerr x) (x_clip x)
+  && impb (x_batch x) (x_batch_rt x).
 
-Definition catalogue_ok (known : list string) (fields : list frow) (cmds : list xrow) : bool :=
-  forallb (field_ok known) fields && forallb (cmd_ok known) cmds.
+Definition catalogue_ok (fields : list frow) (cmds : list xrow) : bool :=
+  forallb field_ok fields && forallb cmd_ok cmds.
 
-Lemma or_known_spec known x what c : or_known known x what c = true -> c = true \/ known_gap known (gap_class x what) = true.
-Proof. unfold or_known. destruct c; auto. Qed.
-
-(* what the finite check means, row by row: every row is complete except exactly the listed gaps *)
-Lemma catalogue_ok_meaning known fields cmds : catalogue_ok known fields cmds = true ->
-  (forall f, In f fields ->
-     (f_obs f = expected f /\ f_foreign_rejected f = true) \/ known_gap known (f_fc f) = true) /\
+(* what the finite check means, row by row *)
+Lemma catalogue_ok_meaning fields cmds : catalogue_ok fields cmds = true ->
+  (forall f, In f fields -> f_obs f = expected f /\ f_foreign_rejected f = true) /\
   (forall x, In x cmds ->
-     (x_enc_ok x = true \/ known_gap known (gap_class x "encode_request") = true) /\
-     (x_has_ctx x = true -> (x_attach x = true /\ x_ctx_set x = true) \/ known_gap known (gap_class x "attach_context") = true) /\
-     (x_resp_rerr x = true -> (x_genre x = true /\ x_readback x = true) \/ known_gap known (gap_class x "gen_region_error") = true) /\
-     (x_resp_rerr x = true -> x_clip x = true \/ known_gap known (gap_class x "resp:RegionError") = true) /\
-     (x_batch x = true -> x_batch_rt x = true \/ known_gap known (gap_class x "batch_conversion") = true)).
+     x_enc_ok x = true /\
+     (x_has_ctx x = true -> x_attach x = true /\ x_ctx_set x = true) /\
+     (x_resp_rerr x = true -> x_genre x = true /\ x_readback x = true) /\
+     (x_resp_rerr x = true -> x_clip x = true) /\
+     (x_batch x = true -> x_batch_rt x = true)).
 Proof.
   unfold catalogue_ok. rewrite andb_true_iff, !forallb_forall. intros [HF HX]. split.
   - intros f Hf. specialize (HF f Hf). unfold field_ok in HF.
-    destruct (field_complete f) eqn:C; [left|right; exact HF].
-    unfold field_complete in C. apply andb_true_iff in C as [H1 H2]. split; [|exact H2].
+    apply andb_true_iff in HF as [H1 H2]. split; [|exact H2].
     destruct (f_obs f), (expected f); cbn in H1; congruence.
   - intros x Hx. specialize (HX x Hx). unfold cmd_ok, impb in HX.
     apply andb_true_iff in HX as [HX H4]. apply andb_true_iff in HX as [HX H3].
     apply andb_true_iff in HX as [HX H2]. apply andb_true_iff in HX as [HX H1].
-    split; [apply or_known_spec; exact HX|]. split; [|split; [|split]].
-    + intros A. rewrite A in H1. cbn [negb orb] in H1. apply or_known_spec in H1 as [H1|H1]; [left|right; exact H1].
-      apply andb_true_iff in H1. exact H1.
-    + intros A. rewrite A in H2. cbn [negb orb] in H2. apply or_known_spec in H2 as [H2|H2]; [left|right; exact H2].
-      apply andb_true_iff in H2. exact H2.
-    + intros A. rewrite A in H3. cbn [negb orb] in H3. apply or_known_spec in H3. exact H3.
-    + intros A. rewrite A in H4. cbn [negb orb] in H4. apply or_known_spec in H4. exact H4.
+    split; [exact HX|]. split; [|split; [|split]].
+    + intros A. rewrite A in H1. cbn [negb orb] in H1. apply andb_true_iff in H1. exact H1.
+    + intros A. rewrite A in H2. cbn [negb orb] in H2. apply andb_true_iff in H2. exact H2.
+    + intros A. rewrite A in H3. cbn [negb orb] in H3. exact H3.
+    + intros A. rewrite A in H4. cbn [negb orb] in H4. exact H4.
 Qed.
